@@ -24,25 +24,35 @@ __attribute__((always_inline)) inline bool shape_is(const V& v)
 {
     constexpr size_t R = sizeof...(E); constexpr size_t ext[R ? R : 1] = {E...};
     auto shp = nm::shape(v);
+    // a scalar (shape None) where an array is expected is a wrong shape, not a build failure of the driver
+    if constexpr (nm::is_none_v<decltype(shp)>) return R == 0;
+    else {
     bool ok = (size_t)nm::len(shp) == R;
     for_<R>([&](auto I){ ok = ok && ext_at<I.value>(shp) == ext[I.value]; });
     return ok;
+    }
+}
+// element of a view at an index; a scalar result (a wrong rank) yields the scalar instead of failing to build
+template <class V, class... I>
+__attribute__((always_inline)) inline long elem(const V& v, I... i)
+{
+    if constexpr (meta::is_num_v<V>) return (long)v; else return (long)v(i...);
 }
 } // namespace cv
 
 // ids are string literals (the helper is inlined, the id reaches the obligation call as a constant)
 #define EXPECT_VIEW1(SID, EID, v, E0, WANT, TAG) do { \
     OBLIGE(SID, (cv::shape_is<E0>(v)), E0, TAG); \
-    for_<E0>([&](auto I){ constexpr size_t i = I.value; OBLIGE(EID, (long)(v)(i) == (long)(WANT), E0, TAG, i); }); } while (0)
+    for_<E0>([&](auto I){ constexpr size_t i = I.value; OBLIGE(EID, cv::elem(v, i) == (long)(WANT), E0, TAG, i); }); } while (0)
 #define EXPECT_VIEW2(SID, EID, v, E0, E1, WANT, TAG) do { \
     OBLIGE(SID, (cv::shape_is<E0,E1>(v)), E0*10+E1, TAG); \
-    for_<E0>([&](auto I){ for_<E1>([&](auto J){ constexpr size_t i = I.value, j = J.value; (void)i; (void)j; OBLIGE(EID, (long)(v)(i,j) == (long)(WANT), E0*10+E1, TAG, i, j); }); }); } while (0)
+    for_<E0>([&](auto I){ for_<E1>([&](auto J){ constexpr size_t i = I.value, j = J.value; (void)i; (void)j; OBLIGE(EID, cv::elem(v, i, j) == (long)(WANT), E0*10+E1, TAG, i, j); }); }); } while (0)
 #define EXPECT_VIEW3(SID, EID, v, E0, E1, E2, WANT, TAG) do { \
     OBLIGE(SID, (cv::shape_is<E0,E1,E2>(v)), E0*100+E1*10+E2, TAG); \
-    for_<E0>([&](auto I){ for_<E1>([&](auto J){ for_<E2>([&](auto K){ constexpr size_t i = I.value, j = J.value, k = K.value; (void)i; (void)j; (void)k; OBLIGE(EID, (long)(v)(i,j,k) == (long)(WANT), E0*100+E1*10+E2, TAG, i*10+j, k); }); }); }); } while (0)
+    for_<E0>([&](auto I){ for_<E1>([&](auto J){ for_<E2>([&](auto K){ constexpr size_t i = I.value, j = J.value, k = K.value; (void)i; (void)j; (void)k; OBLIGE(EID, cv::elem(v, i, j, k) == (long)(WANT), E0*100+E1*10+E2, TAG, i*10+j, k); }); }); }); } while (0)
 #define EXPECT_VIEW4(SID, EID, v, E0, E1, E2, E3, WANT, TAG) do { \
     OBLIGE(SID, (cv::shape_is<E0,E1,E2,E3>(v)), E0*1000+E1*100+E2*10+E3, TAG); \
-    for_<E0>([&](auto I){ for_<E1>([&](auto J){ for_<E2>([&](auto K){ for_<E3>([&](auto L){ constexpr size_t i = I.value, j = J.value, k = K.value, l = L.value; (void)i; (void)j; (void)k; (void)l; OBLIGE(EID, (long)(v)(i,j,k,l) == (long)(WANT), E0*1000+E1*100+E2*10+E3, TAG, i*10+j, k*10+l); }); }); }); }); } while (0)
+    for_<E0>([&](auto I){ for_<E1>([&](auto J){ for_<E2>([&](auto K){ for_<E3>([&](auto L){ constexpr size_t i = I.value, j = J.value, k = K.value, l = L.value; (void)i; (void)j; (void)k; (void)l; OBLIGE(EID, cv::elem(v, i, j, k, l) == (long)(WANT), E0*1000+E1*100+E2*10+E3, TAG, i*10+j, k*10+l); }); }); }); }); } while (0)
 
 // ---- fixed-dimension arrays whose shape is a RUN-TIME value (std::array<size_t,R>): the library takes its run-time branches (loops over
 // len(shape), maybe-typed results). The object is caller-owned and symbolic; ASSUME pins its shape / strides members to the stated extents
